@@ -333,6 +333,25 @@ impl DbcParser {
         let mut data = Vec::new();
         reader.read_to_end(&mut data)?;
 
+        // The header must describe data that is really there: the counts size
+        // allocations when the records are parsed
+        let records_bytes = (header.record_count as u64).saturating_mul(header.record_size as u64);
+        let needed = record_data_offset
+            .saturating_add(records_bytes)
+            .saturating_add(header.string_block_size as u64);
+        if needed > data.len() as u64 {
+            return Err(Error::InvalidHeader(format!(
+                "Header describes {needed} bytes of data, but the file has {}",
+                data.len()
+            )));
+        }
+        if header.record_count > 0 && header.field_count > header.record_size {
+            return Err(Error::InvalidHeader(format!(
+                "{} fields do not fit in records of {} bytes",
+                header.field_count, header.record_size
+            )));
+        }
+
         Ok(Self {
             header,
             schema: None,
